@@ -68,6 +68,14 @@ def gen_problem(rng, t):
                     m["Sigma"] = m.get("Sigma") or rng.choice([10.0, 58.0])
                     m["J_re"] = m.get("J_re") or rng.choice([0.25, -1.0])
                     m["J_im"] = m.get("J_im") or rng.choice([0.75, -0.5])
+        # point currents with a phase: in phase, in pure QUADRATURE (real part exactly zero - still a source, not a prescribed potential),
+        # and general, in turn; a node of the drawing that carries no property gets the point property if none does
+        for pp in p.pointprops:
+            pp["I_re"], pp["I_im"] = [(0.5, 0.0), (0.0, 1.5), (2.0, -1.5)][(t // 3) % 3]
+        if p.pointprops and not any(n_["bc"] >= 0 for n_ in p.nodes):
+            free_ = [n_ for n_ in p.nodes[4:] if n_["bc"] < 0] or p.nodes
+            free_[0]["bc"] = 0
+        stats_phase = (t // 3) % 3
         for b in p.bdryprops:
             if b["type"] == 0:
                 b["Phi"] = rng.choice([0.0, 30.0, 90.0])
